@@ -5,7 +5,7 @@ HOOKS = dict(
     enable="rustc --cfg altrios_verif, set for every harness build by harness/.cargo/config.toml (rustflags); "
            "the guard is a cfg flag, not a cargo feature, so /repo's own Cargo files are untouched",
     baseline_off_cmd="cd /repo/rust && cargo test --workspace --no-fail-fast --offline",
-    source_commits=[],
+    source_commits=["1f8a92f"],
     add_only=True,
 )
 
